@@ -63,7 +63,7 @@ CLAIMED['C17'] = ('FCSMeta, Gen_C17',
     'outside the rendering tables are not claimed.',
     'DESIGN.md 3.1, 4 C17')
 
-CLAIMED['C12'] = ('Stats, Gen_C12',
+CLAIMED['C12'] = ('Stats, Gen_C12, Session',
     'exact-rational TLA+ definitions of the statistics; environment actions enumerate event matrices x container x '
     'channel form; TLC checks definitional invariants and dumps expected values; every scenario executed through '
     'FlowCal.stats for all ten statistics',
@@ -116,7 +116,7 @@ CLAIMED['C07'] = ('RangeLaw, Units, Trace_C07, Session',
     'Sampling (400 draws quick, 20000 thorough), not exhaustive.',
     'DESIGN.md 3.2, 4 C07')
 
-CLAIMED['C19'] = ('HistBins, Gen_C19',
+CLAIMED['C19'] = ('HistBins, LogicleParams, Gen_C19, Session',
     'TLA+ edge grid as exact fractions of the span in the scale coordinate + argument broadcasting table; TLC checks '
     'increasing/covering/centred theorems; every scenario executed through FCSData.hist_bins on raw, RFI and MEF-like samples',
     'Exhaustive over the enumerated call shapes (channel forms, nbins default/explicit/lists, scale linear/log/logicle/'
